@@ -110,11 +110,11 @@ def cfg_name(cfg):
     return "cpu=%s,net=%s" % cfg
 
 
-def pair_name(cfg, kind):
-    """Name of the configuration pair in a key: only the option that governs this kind of activity when that option differs."""
-    if kind in ("exec", "sleep") and cfg[0] != REF[0]:
+def pair_name(cfg, kind=None):
+    """Name of the configuration pair in a key: the one option that differs from the reference, or both."""
+    if cfg[0] != REF[0] and cfg[1] == REF[1]:
         return "cpu/optim:%s-vs-%s" % (cfg[0], REF[0])
-    if kind == "comm" and cfg[1] != REF[1]:
+    if cfg[1] != REF[1] and cfg[0] == REF[0]:
         return "network/optim:%s-vs-%s" % (cfg[1], REF[1])
     return "%s-vs-%s" % (cfg_name(cfg), cfg_name(REF))
 
@@ -147,7 +147,7 @@ def judge(ctx, w, flavour, results, corrupt=None):
         if r["status"] == "watchdog":
             ctx.inconclusive("optim harness watchdog")
         elif r["status"] == "died":
-            ctx.violation("C19:crash:%s:%s" % (cfg_name(cfg), tail(w, cfg, ref)),
+            ctx.violation("C19:crash:%s:%s" % (cfg_name(cfg) if cfg == REF else pair_name(cfg), tail(w, cfg, ref)),
                           "the workload does not run to its end under %s: %s" % (cfg_name(cfg), r["detail"]),
                           {"workload": w, "cfg": list(cfg), "flavour": flavour})
     if ref is None or ref["status"] != "ok":
@@ -162,16 +162,35 @@ def judge(ctx, w, flavour, results, corrupt=None):
         if cfg == REF or r["status"] != "ok":
             continue
         if corrupt:
-            r = corrupt(r)
+            r = corrupt(cfg, r)
         res = orc.compare(ref, r)
         wit = {"workload": w, "cfg": list(cfg), "flavour": flavour}
         ctx.count("dates_compared", len(ref["ev"]))
         ctx.count("comparisons." + cfg_name(cfg))
+        if orc.agree(res):
+            ctx.maximum("worst_deviation_over_tolerance." + cfg_name(cfg), res["worst"])
+            if ov >= 3 and len(ref["ev"]) >= 10:
+                ctx.nontrivial([wtext, cfg_name(cfg)])
+                for k in sorted(set(ref["kinds"].values())):
+                    ctx.count("agreeing_activities." + orc.KIND_NAMES.get(k, k), sum(1 for v in ref["kinds"].values() if v == k))
+            continue
+        # Both options differ from the reference: when this run agrees with the run that changes only one of them, that run already
+        # carries the disagreement (and names the option); it is not reported a second time under a vaguer name.
+        pair = None
+        if cfg[0] != REF[0] and cfg[1] != REF[1] and not corrupt:
+            for other, name in (((cfg[0], REF[1]), "cpu"), ((REF[0], cfg[1]), "network")):
+                o = results.get(other)
+                if o is not None and o["status"] == "ok" and not orc.agree(orc.compare(ref, o)) and orc.agree(orc.compare(o, r)):
+                    ctx.count("disagreements_already_reported_by_the_run_changing_only_the_%s_option" % name)
+                    pair = "skip"
+                    break
+        if pair == "skip":
+            continue
         if res["missing"] or res["extra"]:
-            ctx.violation("C19:events-differ:%s:%s" % (cfg_name(cfg), tail(w, cfg, ref)),
+            ctx.violation("C19:events-differ:%s:%s" % (pair_name(cfg, None), tail(w, cfg, ref)),
                           "the run under %s does not log the same events as the reference %s: missing %s, extra %s"
                           % (cfg_name(cfg), cfg_name(REF), res["missing"], res["extra"]), wit)
-        elif res["first"]:
+        else:
             f = res["first"]
             kind = orc.kind_of(f["key"], ref["kinds"])
             if kind in ("signal", "control", "actor", "activity"):
@@ -183,12 +202,6 @@ def judge(ctx, w, flavour, results, corrupt=None):
             ctx.violation("C19:date:%s:%s:%s" % (kind, pair_name(cfg, kind), tail(w, cfg, ref)),
                           "earliest disagreement: %s%s is %r under %s and %r under the reference %s (difference %.3g s, tolerance %.3g s)"
                           % (f["key"], what, f["obs"], cfg_name(cfg), f["ref"], cfg_name(REF), abs(f["obs"] - f["ref"]), f["tol"]), wit)
-        else:
-            ctx.maximum("worst_deviation_over_tolerance." + cfg_name(cfg), res["worst"])
-            if ov >= 3 and len(ref["ev"]) >= 10:
-                ctx.nontrivial([wtext, cfg_name(cfg)])
-                for k in sorted(set(ref["kinds"].values())):
-                    ctx.count("agreeing_activities." + orc.KIND_NAMES.get(k, k), sum(1 for v in ref["kinds"].values() if v == k))
 
 
 def base_kind(key, ref):
@@ -208,9 +221,68 @@ def run_workload(ctx, w, flavour, cfgs=None, corrupt=None):
     judge(ctx, w, flavour, dict(zip(cfgs, res)), corrupt)
 
 
+# ------------------------------------------------------------------------------------------------ directed cases
+def _plat(hosts, links, routes):
+    return {"hosts": [{"name": n, "cores": c, "speeds": sp, "profile": pr} for n, c, sp, pr in hosts],
+            "links": [{"name": n, "bw": bw, "lat": lat, "pol": pol, "bwprof": bp, "latprof": lp} for n, bw, lat, pol, bp, lp in links],
+            "routes": [{"src": s, "dst": d, "sym": 1, "links": [[l, "N"] for l in ls]} for s, d, ls in routes]}
+
+
+def _two_hosts(speeds=(1e9,), lat=1e-3, bw=1e6, bwprof=None, latprof=None, profile=None):
+    return _plat([("a", 1, list(speeds), profile), ("b", 1, [1e9], None)], [("l", bw, lat, "S", bwprof, latprof)], [("a", "b", ["l"])])
+
+
+def _w(p, actors, ti):
+    return {"platform": p, "actors": [{"name": n, "host": h, "script": sc} for n, h, sc in actors], "ti": ti, "features": ["directed"]}
+
+
+def directed():
+    """(name, workload, configurations or None for all). The first six are the minimal witnesses of the open known findings."""
+    out = []
+    # cpu/optim:TI, exec suspended from another host: the work done before the suspension is lost (5.2 instead of 4.2)
+    out.append(("ti-suspend-loses-work", _w(_two_hosts(), [("v", "a", [["E", 0, "a", 2e9, -1.0, 1.0]]), ("ctl", "b", [["AZ", "v", 1.0, 2.2]])], True), None))
+    # ... and the time spent suspended is credited at the resume (v ends at 18.3 instead of 20; alone it would end at its resume date)
+    out.append(("ti-resume-overcredit", _w(_two_hosts(), [("v", "a", [["E", 0, "a", 10e9, -1.0, 1.0]]), ("w", "a", [["E", 1, "a", 10e9, -1.0, 1.0]]),
+                                                         ("ctl", "b", [["AZ", "v", 1.0, 2.2]])], True), None))
+    # cpu/optim:TI, priority raised at t=1 from another host
+    out.append(("ti-update-priority", _w(_two_hosts(), [("v", "b", [["G", [["E", 0, "a", 2e9, -1.0, 1.0], ["E", 1, "a", 2e9, -1.0, 1.0]], [["U", 0, 1.0, 4.0]]]])], True), None))
+    # cpu/optim:TI, pstate lowered at t=1 from another host
+    out.append(("ti-pstate", _w(_two_hosts(speeds=(1e9, 5e8)), [("v", "a", [["E", 0, "a", 2e9, -1.0, 1.0]]), ("ctl", "b", [["S", 1.0], ["P", "a", 1]])], True), None))
+    # bandwidth (resp. latency) event at 0.5 while the comm pays its latency until 1.301: lazy never completes it
+    bp = {"period": -1.0, "points": [(0.0, 1e5), (0.5, 3e5)]}
+    out.append(("bandwidth-event-during-latency", _w(_two_hosts(lat=0.1, bw=1e5, bwprof=bp), [("v", "a", [["C", 0, "a", "b", 1e5]])], True), None))
+    lp = {"period": -1.0, "points": [(0.0, 0.1), (0.5, 0.05)]}
+    out.append(("latency-event-during-latency", _w(_two_hosts(lat=0.1, bw=1e5, latprof=lp), [("v", "a", [["C", 0, "a", "b", 1e5]])], True), None))
+    # comm suspended over [0.5, 0.8] while it pays its latency, another comm on the same link
+    out.append(("comm-suspended-during-latency", _w(_two_hosts(lat=0.1, bw=1e5), [("v", "a", [["G", [["C", 0, "a", "b", 1e5], ["C", 1, "a", "b", 2e5]],
+                                                                                               [["Z", 0, 0.5, 0.3]]]])], True), None))
+    # expected to agree: the same dynamic features where every configuration handles them
+    prof = {"period": 5.0, "points": [(0.0, 1.0), (1.5, 0.5), (2.5, 0.25), (4.0, 1.0)]}
+    bpr = {"period": 6.0, "points": [(0.0, 1e6), (2.0, 5e5), (3.0, 2e6)]}
+    p = _two_hosts(profile=prof, bwprof=bpr)
+    out.append(("ti-profile-sharing", _w(p, [("x%d" % i, "a", [["S", 0.3 * i], ["E", i, "a", 1e9 * (i + 1), -1.0, [1.0, 2.0, 0.5][i]]]) for i in range(3)] +
+                                        [("snd", "a", [["C", 10 + k, "a", "b", 1.5e6] for k in range(3)])], True), None))
+    p = _plat([("a", 4, [1e9, 5e8, 2e9], {"period": -1.0, "points": [(0.7, 0.5), (2.1, 1.0)]}), ("b", 1, [1e9], None), ("c", 2, [2e9], None)],
+              [("l0", 1e6, 1e-3, "S", None, None), ("l1", 2e6, 0.0, "F", None, None), ("l2", 5e5, 1e-4, "D", None, None)],
+              [("a", "b", ["l0", "l1"]), ("a", "c", ["l0", "l2"]), ("b", "c", ["l2"])])
+    g1 = [["E", 0, "a", 1e9, -1.0, 1.0], ["E", 1, "a", 1e9, -1.0, 1.0], ["E", 2, "a", 5e8, 2.5e8, 1.0], ["E", 3, "a", 3e9, -1.0, 2.0], ["E", 4, "a", 3e9, -1.0, 0.5],
+          ["E", 5, "a", 1e9, -1.0, 1.0]]
+    g2 = [["C", 10, "a", "b", 1e6], ["C", 11, "b", "a", 5e5], ["C", 12, "a", "c", 1e6], ["C", 13, "a", "b", 1.0]]
+    out.append(("multicore-all-features", _w(p, [
+        ("m0", "b", [["G", g1, [["Z", 0, 0.3111111, 0.5222222], ["U", 3, 0.1333333, 4.0], ["W", 0.2111111], ["P", "a", 1], ["Z", 4, 0.4111111, 0.7333333], ["P", "a", 2]]],
+                     ["E", 6, "a", 1.0, -1.0, 1.0]]),
+        ("m1", "c", [["S", 0.45], ["E", 7, "c", 2e9, -1.0, 1.0], ["PUT", 20, "mb0", 3e5, 1e5], ["E", 8, "a", 2e9, 1e9, 3.0]]),
+        ("m2", "b", [["G", g2, [["Z", 10, 0.7111111, 0.4222222]]], ["E", 9, "b", 1e9, -1.0, 1.0]]),
+        ("m3", "a", [["AZ", "m1", 0.6111111, 0.8222222], ["S", 0.5], ["E", 14, "a", 2e9, -1.0, 1.0]]),
+        ("r0", "a", [["S", 1.2], ["GET", 20, "mb0"]])], False), None))
+    return out
+
+
 def plan(ctx):
     n = ctx.size(30, 1500)
     items = []
+    for name, w, cfgs in directed():
+        items.append((w, "hooks"))
     for i in range(n):
         rng = ctx.sub_rng("w", i)
         ti = i % 2 == 0
@@ -226,11 +298,16 @@ def run(ctx):
     try:
         exe_of("hooks")
         items = plan(ctx)
-        ctx.sample({"workload": gen.workload_text(items[0][0]).splitlines(), "configurations": [cfg_name(c) for c in configs(items[0][0]["ti"])]})
+        ctx.sample({"workload": gen.workload_text(items[-1][0]).splitlines(), "configurations": [cfg_name(c) for c in configs(items[-1][0]["ti"])]})
         ctx.pmap(lambda it: run_workload(ctx, it[0], it[1]), items)
     finally:
         shutil.rmtree(tmp, ignore_errors=True)
 
 
 def replay(ctx, wit):
-    run_workload(ctx, wit["workload"], wit["flavour"], [REF, tuple(wit["cfg"])])
+    cfg = tuple(wit["cfg"])
+    cfgs = [REF]
+    for c in (cfg, (cfg[0], REF[1]), (REF[0], cfg[1])):
+        if c not in cfgs:
+            cfgs.append(c)
+    run_workload(ctx, wit["workload"], wit["flavour"], cfgs)
